@@ -1,3 +1,31 @@
-From BP Require Import Base.Chars.
-Theorem C04_placeholder : True. Proof. exact I. Qed.
-Print Assumptions C04_placeholder.
+(* C04 - malformed blocks never damage neighbours: parsing resyncs at the next @block.
+   Statements only; proofs in Proofs/SplitResync.v. *)
+From Coq Require Import List NArith ZArith.
+From BP Require Import Base.Chars Model.Blocks Model.Lexer Model.Splitter Spec.C03 Spec.C04 Proofs.SplitResync.
+Import ListNotations.
+Local Open Scope Z_scope.
+
+(* arbitrary text x (unbalanced braces or quotes, truncated blocks, garbage), then a line starting with a block
+   start "@type{" (at_ok r: the look-ahead of the mark regex succeeds): that block and everything after it is
+   parsed exactly as it would be on its own, k lines further down; what precedes accounts for x only (its raw
+   texts tile "\n" ++ x ++ "\n") *)
+Theorem C04_resync : forall x r B B0, at_ok r = true ->
+  split_raw (x ++ c_nl :: c_at :: r) = Blocks B -> split_raw (c_at :: r) = Blocks B0 ->
+  exists pre items, B = pre ++ map (shiftb (count_nl x + 1)) B0 /\
+    raw_lines pre = Some items /\ tiledL (-1) (c_nl :: x ++ [c_nl]) items.
+Proof. exact resync_tiles. Qed.
+Print Assumptions C04_resync.
+
+(* a text after which the machine has just closed a block (a document ending in a complete block), followed by
+   arbitrary text: the blocks parsed for that document are unchanged *)
+Theorem C04_prefix_stable : forall p x Bp, md (run p) = Out -> ic_rev (run p) = [] ->
+  split_raw p = Blocks Bp -> exists rest, split_raw (p ++ x) = Blocks (Bp ++ rest).
+Proof. exact prefix_stable'. Qed.
+Print Assumptions C04_prefix_stable.
+
+(* consequently: parsing a concatenation yields the concatenation of the blocks (second part shifted) *)
+Theorem C04_concat : forall p r Bp B0, md (run p) = Out -> ic_rev (run p) = [] -> at_ok r = true ->
+  split_raw p = Blocks Bp -> split_raw (c_at :: r) = Blocks B0 ->
+  split_raw (p ++ c_nl :: c_at :: r) = Blocks (Bp ++ map (shiftb (count_nl p + 1)) B0).
+Proof. exact concat'. Qed.
+Print Assumptions C04_concat.
